@@ -150,8 +150,24 @@ func (w *kvWorld) step(r *rand.Rand) (mismatch string) {
 		if limit >= 0 && len(want) > limit {
 			want = want[:limit]
 		}
+		interleave := r.Intn(2) == 0
+		probe := kvm.Key(r, 0, 4)
 		for _, st := range w.stores {
-			got, err := kvm.ReadAll(st.db, prefix, start, limit)
+			var got []kvm.Pair
+			var err error
+			if !interleave {
+				got, err = kvm.ReadAll(st.db, prefix, start, limit)
+			} else {
+				// point reads of another key through the same store between the steps of the iteration
+				it := st.db.NewIterator(append([]byte{}, prefix...), append([]byte{}, start...))
+				for (limit < 0 || len(got) < limit) && it.Next() {
+					got = append(got, kvm.Pair{K: append([]byte{}, it.Key()...), V: append([]byte{}, it.Value()...)})
+					_, _ = st.db.Get(probe)
+					_, _ = st.db.Has(append([]byte{}, it.Key()...))
+				}
+				err = it.Error()
+				it.Release()
+			}
 			if err != nil {
 				return fail(st, "iterator error %v", err)
 			}
@@ -160,6 +176,9 @@ func (w *kvWorld) step(r *rand.Rand) (mismatch string) {
 			}
 		}
 		w.stats["iterate"]++
+		if interleave {
+			w.stats["iterate_interleaved_with_point_reads"]++
+		}
 		if len(prefix) > 0 && prefix[len(prefix)-1] == 0xff {
 			w.stats["iterate_prefix_ending_ff"]++
 		}
